@@ -55,6 +55,10 @@ func costFamily(name string, k int) string {
 		return "SELECT " + rep("s.t.c,\n", k) + "x FROM s.t"
 	case "join_chain":
 		return "SELECT * FROM t0 " + rep("JOIN t1 ON t0.a = t1.a\n", k)
+	case "union_long": // one query expression of very many set operations (the tree is nested to the left)
+		return "SELECT a FROM t" + rep("\nUNION ALL SELECT a FROM t", k)
+	case "long_qualified_name": // one name of very many dotted parts
+		return "SELECT " + rep("a.", k) + "b FROM t"
 	case "union_dangling": // one long statement with very many statement keywords whose error is at its very end
 		return "SELECT a FROM t" + rep("\nUNION ALL SELECT a FROM t", k) + "\nUNION ALL"
 	case "broken_statements": // very many malformed statements
